@@ -69,6 +69,16 @@ int coap_handle_request_send_block(coap_session_t *session, coap_pdu_t *pdu, coa
   return 0;
 }
 #endif
+#ifdef UNREACH_UPDATE_TOKEN
+/* Block1 receiver scenarios in which the block with M=0 never arrives: the request token is only swapped (to the token of the
+ * final block) on the out-of-order completion path, which needs lg_srcv->last_token, i.e. the final block to have been seen */
+int coap_update_token(coap_pdu_t *pdu, size_t len, const uint8_t *data) {
+  (void)pdu; (void)len; (void)data;
+  __CPROVER_assert(0, "cut: the out-of-order completion path (token swap) is unreachable before the final block has been seen");
+  __CPROVER_assume(0);
+  return 0;
+}
+#endif
 #ifdef UNREACH_SESSION_FREE
 /* the application holds references to every session of a job: freeing one is itself a violation (C12) */
 void coap_session_free(coap_session_t *session) {
